@@ -146,6 +146,13 @@ def r10_1(ctx):
         w = g.must_pass(g.entry, set(stops), {g.exit}) if stops else [g.entry]
         ctx.check(w is None, ex.fq, "self.stop()", ex.where, "__exit__ calls stop() on every path", "__exit__ can return without calling stop(): the display is not torn down when the block exits",
                   g.describe_path(w) if w else None)
+        # an exception raised by stop() itself (the final refresh rendering the renderable) must propagate too
+        for t_ in walk_local(ex.node):
+            if isinstance(t_, ast.Try) and any(isinstance(c, ast.Call) and norm(c.func) == "self.stop" for b in t_.body for c in ast.walk(b)):
+                for h in t_.handlers:
+                    reraises = any(isinstance(x, ast.Raise) for x in ast.walk(ast.Module(body=h.body, type_ignores=[])))
+                    ctx.check(reraises, ex.fq, f"except {norm(h.type) if h.type is not None else ''}: ...", f"{ex.module.relpath}:{h.lineno}", "an error raised while stopping is re-raised",
+                              "__exit__ catches the exception raised by stop() (the last refresh rendering the renderable) and does not re-raise it: a renderable that fails on the final frame fails silently")
         rets = [r for r in walk_local(ex.node) if isinstance(r, ast.Return) and r.value is not None]
         bad = [norm(r) for r in rets if not (isinstance(r.value, ast.Constant) and not r.value.value)]
         ctx.check(not bad, ex.fq, "return value", ex.where, "__exit__ returns a falsy value (the exception propagates)", f"__exit__ may return a truthy value ({bad}): an exception raised in the block would be swallowed")
